@@ -20,7 +20,9 @@ _COMM = re.compile(r"^nccl.*Kernel")
 
 
 def gen(rng, tier, no, wide=False):
-    case = CP.gen_cp_case(rng)
+    # an operator that follows a sibling inside an annotation (which has no graph nodes) is what separates the tracked
+    # parent from the entered event's parent in the end->start attribution case: annotations often, in a third of the cases
+    case = CP.gen_cp_case(rng, **({"annotation_rate": 0.35} if rng.random() < 0.35 else {}))
     # sub-microsecond stream: HTA_DISABLE_NS_ROUNDING=1 with dyadic fractional times (multiples of 1/8 us). The graph
     # model is integer-time, so only the conservation clause (rows = critical edges, durations add up to the path's
     # weight) is decided there, directly on the implementation's numbers
